@@ -183,7 +183,9 @@ def check_linesearch(ctx):
         ctx.count('ls.fallback', res not in probes)
         if not res > 0:
             ctx.fail_input(case, 'line search returned a non-positive offset %r' % res, '> 0', res)
-        elif good(0.0):
+        elif good(0.0) and max([o for o in probes if good(o)]) > 0:
+            # (when no positive offset was probed below the threshold the code falls back to its step resolution:
+            #  theorem linesearch_result_good, case r.1 = 0 — nothing is claimed about that value beyond positivity)
             below = [o for o in probes if o <= res]
             if any(not good(o) for o in below):
                 ctx.fail_input(case, 'line search returned %r although the objective was above the threshold at a probed offset %r <= result'
@@ -291,7 +293,7 @@ def replay(ctx, case):
             return 0.0 if any(a <= o < b for a, b in ivs) else 1.0
         res = float(line_search(f, th0.copy(), v, 0.5, K=case['K'], eta=case['eta'], rep_lim=case['rep_lim']))
         good = lambda o: any(a <= o < b for a, b in ivs)
-        if not res > 0 or (good(0.0) and any(not good(o) for o in probes if o <= res)):
+        if not res > 0 or (good(0.0) and max([o for o in probes if good(o)]) > 0 and any(not good(o) for o in probes if o <= res)):
             ctx.fail_input(case, 'line search result %r violates the statement' % res)
         return dict(result=res, probes=probes)
     return dict(note='box / posterior cases are regenerated from the seed: rerun the check with the same VERIF_SEED')
